@@ -115,3 +115,34 @@ Definition check_mset (c : mset_case) : bool :=
   && forallb (fun p => Bool.eqb (m_contains (fst p) m) (snd p)) probes
   && list_eqb N.eqb (m_range_count k m) rk.
 Definition mset_mismatches := mismatches_with check_mset.
+
+(* ---- streams "alias_*": signature values are independent of each other. After an Add through
+   the participant set of value number m, every OTHER value must still be what the model says it
+   was: (participant bytes before, m, observed (Bytes, Len, ForEach) of every value afterwards);
+   the mutated value itself is not compared (a Bitfield and its own copies share bytes). ---- *)
+Definition alias_b_case := (list (list N) * nat * list (list N * nat * list N))%type.
+Fixpoint check_alias_b_from (i m : nat) (before : list (list N)) (after : list (list N * nat * list N)) : bool :=
+  match before, after with
+  | [], [] => true
+  | b :: br, a :: ar =>
+      (Nat.eqb i m || triple_eqb (let p := from_bytes b in (bytes p, len p, enum p)) a)
+      && check_alias_b_from (S i) m br ar
+  | _, _ => false
+  end.
+Definition check_alias_b (c : alias_b_case) : bool :=
+  let '(before, m, after) := c in check_alias_b_from 0 m before after.
+Definition alias_b_mismatches := mismatches_with check_alias_b.
+
+(* the same for signer lists: (signer lists before, m, observed (ForEach, Len) afterwards) *)
+Definition alias_m_case := (list (list N) * nat * list (list N * nat))%type.
+Fixpoint check_alias_m_from (i m : nat) (before : list (list N)) (after : list (list N * nat)) : bool :=
+  match before, after with
+  | [], [] => true
+  | b :: br, a :: ar =>
+      (Nat.eqb i m || (list_eqb N.eqb (m_enum b) (fst a) && Nat.eqb (m_len b) (snd a)))
+      && check_alias_m_from (S i) m br ar
+  | _, _ => false
+  end.
+Definition check_alias_m (c : alias_m_case) : bool :=
+  let '(before, m, after) := c in check_alias_m_from 0 m before after.
+Definition alias_m_mismatches := mismatches_with check_alias_m.
